@@ -168,6 +168,58 @@ func (de *distEval) classify(classes []colClass) (map[string]string, []string) {
 	return role, unknown
 }
 
+// decompose writes each counter as an integer combination of the basis classes, which are pairwise disjoint column
+// classes: the coefficient of a class is the counter's step on the columns of that class (it must be the same on all of
+// them), and the counter must not move on columns that belong to no class. How the code splits its counting among
+// variables is then immaterial (n and d; differ and same; ...): the returned expression is compared after substitution.
+func (de *distEval) decompose(basis []colClass) (map[string]string, []string) {
+	subst := map[string]string{}
+	var unknown []string
+	var names []string
+	for name := range de.deltas {
+		names = append(names, name)
+	}
+	sort.Strings(names)
+	for _, name := range names {
+		tab := de.deltas[name]
+		coef := map[string]int64{}
+		seen := map[string]bool{}
+		var why []string
+		for pair, d := range tab {
+			in := ""
+			for _, cl := range basis {
+				if cl.fn(pair[0], pair[1]) != 0 {
+					in = cl.name
+				}
+			}
+			if in == "" {
+				if d != 0 {
+					why = append(why, fmt.Sprintf("%c/%c:%+d on a column of no specified class", pair[0], pair[1], d))
+				}
+				continue
+			}
+			if seen[in] && coef[in] != d {
+				why = append(why, fmt.Sprintf("%c/%c:%+d but %+d on other %s columns", pair[0], pair[1], d, coef[in], in))
+				continue
+			}
+			seen[in], coef[in] = true, d
+		}
+		if len(why) > 0 {
+			sort.Strings(why)
+			unknown = append(unknown, fmt.Sprintf("counter %s is not a combination of the specified column classes (%s)", name, first(why, 6)))
+			continue
+		}
+		var terms []string
+		for _, cl := range basis {
+			if coef[cl.name] != 0 {
+				terms = append(terms, fmt.Sprintf("%d*%s", coef[cl.name], cl.name))
+			}
+		}
+		subst[name] = "lin:" + strings.Join(terms, "+")
+	}
+	return subst, unknown
+}
+
 func fi(name string) *eval.FExpr { return eval.FInt(eval.Sym(name)) }
 func fop(op string, a, b *eval.FExpr) *eval.FExpr {
 	return &eval.FExpr{Op: op, A: a, B: b}
@@ -240,7 +292,7 @@ func c07Identities(c *core.Ctx, tabs *Tables) {
 		c.Und("R1/snpDistance", token.NoPos, "UNRESOLVED anchor closest.snpDistance")
 	} else if de := evalDistance(c, tabs, "R1/snpDistance", fn); de != nil {
 		nfn++
-		role, unknown := de.classify([]colClass{{"n", one(clsDisjoint)}})
+		role, unknown := de.decompose([]colClass{{"n", one(clsDisjoint)}})
 		c.Ob("R1/snpDistance/column-classes", len(unknown) == 0, de.sum.Pos, "%s", strings.Join(unknown, "; "))
 		got, err1 := algebra.Normalise(de.result, rename(role, de.sum, nil))
 		want, _ := algebra.Normalise(fi("n"), nil)
@@ -261,13 +313,10 @@ func c07Identities(c *core.Ctx, tabs *Tables) {
 		c.Und("R1/rawDistance", token.NoPos, "UNRESOLVED anchor closest.rawDistance")
 	} else if de := evalDistance(c, tabs, "R1/rawDistance", fn); de != nil {
 		nfn++
-		role, unknown := de.classify([]colClass{
-			{"n", one(clsDisjoint)},
-			{"d", func(q, t byte) int64 { return b2i(clsDisjoint(q, t)) + b2i(clsResEq(q, t)) }},
-		})
+		role, unknown := de.decompose([]colClass{{"n", one(clsDisjoint)}, {"s", one(clsResEq)}})
 		c.Ob("R1/rawDistance/column-classes", len(unknown) == 0, de.sum.Pos, "%s", strings.Join(unknown, "; "))
 		got, err1 := algebra.Normalise(de.result, rename(role, de.sum, nil))
-		want, _ := algebra.Normalise(fop("/", fi("n"), fi("d")), nil)
+		want, _ := algebra.Normalise(fop("/", fi("n"), fop("+", fi("n"), fi("s"))), nil)
 		if err1 != nil {
 			if strings.Contains(err1.Error(), "unsupported float operator") {
 				c.Ob("R2/rawDistance/result", false, fn.Pos(), "the value returned is not the specified quantity: it is post-processed (%v) - returned expression %s", err1, de.result)
@@ -284,11 +333,13 @@ func c07Identities(c *core.Ctx, tabs *Tables) {
 		c.Und("R1/tn93Distance", token.NoPos, "UNRESOLVED anchor closest.tn93Distance")
 	} else if de := evalDistance(c, tabs, "R1/tn93Distance", fn); de != nil {
 		nfn++
-		role, unknown := de.classify([]colClass{
-			{"dd", one(clsResDiff)},
-			{"Lc", one(clsBothRes)},
+		role, unknown := de.decompose([]colClass{
 			{"p1", one(clsPair('A', 'G'))},
 			{"p2", one(clsPair('C', 'T'))},
+			{"qv", func(q, t byte) int64 {
+				return b2i(clsResDiff(q, t) && !clsPair('A', 'G')(q, t) && !clsPair('C', 'T')(q, t))
+			}}, // transversions
+			{"s", func(q, t byte) int64 { return b2i(clsBothRes(q, t) && !clsResDiff(q, t)) }}, // both resolved and equal
 		})
 		c.Ob("R1/tn93Distance/column-classes", len(unknown) == 0, de.sum.Pos, "%s", strings.Join(unknown, "; "))
 		// frequencies: target's counts; the query record never carries counts (R3)
@@ -308,7 +359,15 @@ func c07Identities(c *core.Ctx, tabs *Tables) {
 			return s
 		}
 		got, err1 := algebra.Normalise(de.result, rename(role, de.sum, counts))
-		want, err2 := algebra.Normalise(tn93Oracle(), nil)
+		want, err2 := algebra.Normalise(tn93Oracle(), func(s string) string {
+			switch s {
+			case "dd": // all differences between resolved bases
+				return "lin:1*p1+1*p2+1*qv"
+			case "Lc": // all columns where both bases are resolved
+				return "lin:1*p1+1*p2+1*qv+1*s"
+			}
+			return s
+		})
 		if err1 != nil || err2 != nil {
 			if err1 != nil && strings.Contains(err1.Error(), "unsupported float operator") {
 				c.Ob("R2/tn93Distance/eq7", false, fn.Pos(), "the value returned is not Tamura-Nei eq. 7: it is post-processed (%v)", err1)
